@@ -276,6 +276,8 @@ class Loop(Term):
     # one entry per syntactic path through the body that reaches its end (or a
     # continue/break): (guards, flow, ((name, value at end of path), ...), effects)
     paths: Tuple[Tuple[Tuple[Tuple[Term, bool], ...], str, Tuple[Tuple[str, Term], ...], Tuple[Term, ...]], ...] = ()
+    # values, on entry to the loop, of the variables that the body assigns (accumulators)
+    inits: Tuple[Tuple[str, Term], ...] = dfield(default=(), compare=False)
 
     def __repr__(self):
         return f'loop({self.target} in {self.iter!r}: {list(self.effects)!r} raises={list(self.raises)!r})'
@@ -1124,7 +1126,8 @@ class Evaluator:
         body_st.effects = ()
         body_st.guards = ()
         body_st.trace = ()
-        assigned = self._assigned_names(s.body) + ([n.id for n in ast.walk(s.target) if isinstance(n, ast.Name)] if isinstance(s, ast.For) else [])
+        loop_targets = [n.id for n in ast.walk(s.target) if isinstance(n, ast.Name)] if isinstance(s, ast.For) else []
+        assigned = self._assigned_names(s.body) + loop_targets
         for n in assigned:
             body_st.env[n] = Opaque(f'loopvar:{n}')
         if isinstance(s, ast.For):
@@ -1150,7 +1153,7 @@ class Evaluator:
         has_break = any(isinstance(n, ast.Break) for b in s.body for n in ast.walk(b))
         raises = tuple((o.guards, o.value) for o in inner if o.kind == 'raise')
         returns = tuple((o.guards, o.value) for o in inner if o.kind == 'return')
-        summary = Loop(tsrc, it, tuple(effs), raises, returns, tuple(paths))
+        summary = Loop(tsrc, it, tuple(effs), raises, returns, tuple(paths), tuple((n, st.env[n]) for n in dict.fromkeys(assigned) if n in st.env and n not in loop_targets))
         st.effects = st.effects + (summary,)
         for o in inner:
             outs.append(Outcome(o.kind, o.value, st.guards + ((Op('iterating', (it,)), True),) + o.guards, st.effects + o.effects, st.asserts + o.asserts, o.lineno))
